@@ -6,7 +6,7 @@ CONSTANTS
  Datas = {"d0", "d1", "d2", "d3", "d4", "d5", "d6"}
  Prefixes <- SimPrefixes
  MaxOps = 0
- Styles = {"write", "nowrite", "copy"}
+ Styles = {"write", "nowrite", "copy", "uneven", "tiny"}
  EmptyData = "d0"
  CopyOn = TRUE
  CopyMiss <- SimMiss
